@@ -1501,7 +1501,7 @@ impl World for BwdWorld {
             ],
             hang_is_a_verdict: false,
             required_probes: probes,
-            quick_runs: 25_000,
+            quick_runs: if prop == "C11" { 40_000 } else { 25_000 },
             thorough_runs: 600_000,
         }
     }
